@@ -131,7 +131,7 @@ func fieldCoverage(c *Ctx, r *RuleResult, nodes []string, writers []*ssa.Functio
 
 var (
 	reFieldRef  = regexp.MustCompile(`[A-Z]\w*\.[A-Z]\w*`)
-	rePresence  = regexp.MustCompile(`^(len\()?([A-Z]\w*\.\w+->)?[A-Z]\w*\.\w+\)? (!=|==|>) (nil|0|"")$`)
+	rePresence  = regexp.MustCompile(`^(len\()?([A-Za-z]\w*\.\w+->)*[A-Z]\w*\.\w+\)? (!=|==|>) (nil|0|"")$`)
 	reOwnKind   = regexp.MustCompile(`^[A-Z]\w*\.Kind (==|!=) `)
 	reBuiltIn   = regexp.MustCompile(`^!?([A-Z]\w*\.\w+->)*[A-Z]\w*\.BuiltIn$`)
 	reSameNode  = regexp.MustCompile(`^([A-Z]\w*)\.\w+ (!=|==) ([A-Z]\w*)\.\w+$`)
@@ -270,6 +270,18 @@ func guardDiscipline(c *Ctx, r *RuleResult, side string) {
 			for _, prm := range r0.Params {
 				if n := namedOf(prm.Type()); n != nil && n.Obj().Name() == "Schema" {
 					isSchema = true
+				}
+			}
+		}
+		// a method of a helper object that holds the schema being printed
+		if recv := fn.Signature.Recv(); recv != nil {
+			if n := namedOf(derefType(recv.Type())); n != nil {
+				if st, ok := n.Underlying().(*types.Struct); ok {
+					for i := 0; i < st.NumFields(); i++ {
+						if fn2 := namedOf(derefType(st.Field(i).Type())); fn2 != nil && (fn2.Obj().Name() == "Schema" || fn2.Obj().Name() == "SchemaDocument") {
+							isSchema = true
+						}
+					}
 				}
 			}
 		}
